@@ -48,11 +48,17 @@ CLASSES = {
         'prototype_field': 'ref:Field', 'opt_elem_field_name': 'str', 'when': 'dyn'}),
     'Prototype': dict(module='packet', bases=[], attrs={'template': 'dyn', 'clone': 'meth'},
                       methsel={'clone': ['packet:Prototype._clone_from_pickle', 'packet:Prototype._clone_from_live_obj']}),
+    # code cache (C15): the generator object, the class object being built, module objects of the import system
+    'CodeGenerator': dict(module='codegen', bases=[], attrs={
+        'pkt_class': 'ref:PktClass', 'generate_for_pack': 'bool', 'generate_for_unpack': 'bool'}),
+    'PktClass': dict(module='packet', bases=[], attrs={'pack_impl': 'dyn', 'unpack_impl': 'dyn', '__name__': 'str'}),
+    'Module': dict(module='importlib', bases=[], attrs={}),
     'Auto': dict(module='descriptor', bases=[], attrs={
         'func': 'dyn', 'iam_enabled_attr_name': 'str', 'real_field_name': 'str', 'descriptor_name': 'str'}),
     'AutoLength': dict(module='descriptor', bases=['Auto'], attrs={'length_of': 'str'}),
 }
 
-DISJOINT = [('Field', 'Packet'), ('Field', 'Fragments'), ('Packet', 'Fragments'),
+DISJOINT = [('Module', 'PktClass'), ('Module', 'CodeGenerator'), ('PktClass', 'CodeGenerator'), ('Module', 'Packet'), ('Module', 'Field'),
+            ('Field', 'Packet'), ('Field', 'Fragments'), ('Packet', 'Fragments'),
             ('Int', 'Data'), ('Int', 'Bits'), ('Data', 'Bits'), ('Field', 'PacketError'),
             ('Packet', 'PacketError'), ('Field', 'UnaryExpr'), ('Field', 'BinaryExpr'), ('Field', 'NaryExpr')]
